@@ -17,7 +17,7 @@ pub const FLOORS: &[&str] = &[
     "label:goto_offset", "label:print", "label_colon", "label_own_line", "multibyte_in_source",
     "origin:default", "origin:other", "origin:ge8000", "image_straddles_8000", "break_or_orig_interleaved",
     "assembly_after_memory_was_modified", "label_like_register_with_digits", "break_table_row", "break_table_row_truncated",
-    "break_table_row_multibyte", "break_table_row_without_statement", "image_crosses_fe00",
+    "break_table_row_multibyte", "break_table_row_without_statement", "image_crosses_fe00", "label_shaped_like_number_or_register",
 ];
 
 pub fn run(cfg: &Cfg, col: &mut Collector) {
@@ -107,22 +107,10 @@ fn one_case(seed: u64, i: u64) -> CaseOut {
             qs.push(Q::Asm(a as u16));
         }
     }
-    for (name, idx) in &img.labels {
-        if !debugger_safe(name) {
-            continue;
-        }
-        let addr = orig + *idx as u16;
-        qs.push(Q::Goto(name.clone(), addr, 0));
-        let k = rng.range(-3, 3) as i32;
-        qs.push(Q::Goto(name.clone(), addr, k));
-        qs.push(Q::Print(name.clone(), addr, rng.range(-2, 2) as i32));
-    }
-    // shuffle so that `assembly` is not only asked in address order
-    for k in (1..qs.len()).rev() {
-        let j = rng.below(k as u64 + 1) as usize;
-        qs.swap(k, j);
-    }
-    let off_text = |k: i32, rng: &mut Rng| -> String {
+    // the token is written first and shown to the reference grammar of the command language: names
+    // like `b10`, `o7`, `r3`, `100` are labels to the assembler but integers or registers to the
+    // debugger; a query is only made where the grammar says "label NAME plus offset K"
+    let off_text0 = |k: i32, rng: &mut Rng| -> String {
         if k == 0 && rng.bool() {
             String::new()
         } else if k < 0 {
@@ -131,6 +119,30 @@ fn one_case(seed: u64, i: u64) -> CaseOut {
             format!("+{}", k)
         }
     };
+    for (name, idx) in &img.labels {
+        let addr = orig + *idx as u16;
+        for (is_print, k) in [(false, 0), (false, rng.range(-3, 3) as i32), (true, rng.range(-2, 2) as i32)] {
+            let token = format!("{}{}", name, off_text0(k, &mut rng));
+            match crate::refcmd::memory_location(&token) {
+                Ok(crate::refcmd::RLoc::Label(n, o)) if n == *name && o as i32 == k => {
+                    if !debugger_safe(name) {
+                        out.class("label_shaped_like_number_or_register");
+                    }
+                    if is_print {
+                        qs.push(Q::Print(token, addr, k));
+                    } else {
+                        qs.push(Q::Goto(token, addr, k));
+                    }
+                }
+                _ => out.class("label_token_is_not_a_label_to_the_debugger"),
+            }
+        }
+    }
+    // shuffle so that `assembly` is not only asked in address order
+    for k in (1..qs.len()).rev() {
+        let j = rng.below(k as u64 + 1) as usize;
+        qs.swap(k, j);
+    }
     // some words are overwritten first: `assembly` shows the *source* of the statement which
     // produced the word at that address, whatever the word holds now. (These lines come first so
     // that the queries keep their positions: query k is line k + n_moves.)
@@ -150,8 +162,8 @@ fn one_case(seed: u64, i: u64) -> CaseOut {
     for q in &qs {
         lines.push(match q {
             Q::Asm(a) => format!("{} {}", rng.s(&["assembly", "a", "asm"]), match rng.below(3) { 0 => format!("x{:04x}", a), 1 => format!("{}", a), _ => format!("0x{:X}", a) }),
-            Q::Goto(nm, _, k) => format!("{} {}{}", rng.s(&["goto", "g"]), nm, off_text(*k, &mut rng)),
-            Q::Print(nm, _, k) => format!("{} {}{}", rng.s(&["print", "p"]), nm, off_text(*k, &mut rng)),
+            Q::Goto(token, _, _) => format!("{} {}", rng.s(&["goto", "g"]), token),
+            Q::Print(token, _, _) => format!("{} {}", rng.s(&["print", "p"]), token),
         });
     }
     lines.push("exit".into());
